@@ -33,7 +33,11 @@ RULE = (
     "pg: non-trivial = effective weights of both signs and reference gradient norm > 0. "
     "ppo: non-trivial = batch >= 2, both advantage signs, reference gradient norm > 0 and, in mixed mode, samples "
     "clipped on both sides or at least one sample clipped on its favoured side next to one that still contributes "
-    "(the dedicated unchanged-parameters / all-clipped modes count with both advantage signs). "
+    "(the dedicated unchanged-parameters / all-clipped modes count with both advantage signs); about a fifth of "
+    "the ppo cases records actions of extreme log-probability (label x=...): a softmax output bias lowered by "
+    "105-250 with drawn rows recording that action (log-probability < -100, other rows ordinary), a Gaussian "
+    "action component 15-20 std from the mean in drawn rows, or (unchanged-parameters mode only) a narrow "
+    "Gaussian head, std e^-6..e^-7, with 24 / 32 action dimensions (joint log-density > +90). "
     "ppo_update: update_ppo on environment-major rollouts (6 signatures quick / 15 thorough: 1-4 environments x "
     "2-12 steps, all three stochastic heads, critics (N,) and (N,1), drawn termination flags, rewards x0.3..10) "
     "with epochs 1, 2, 3 and plain SGD optimizers whose actor learning rate is drawn (0.1-4) or scaled so that "
@@ -50,7 +54,9 @@ ASSUMPTIONS = [
     "float32 arithmetic (library regime); value references in float64 from the float32 forward passes, "
     "gradient references from independently written jax objectives (per-sample Jacobians contracted in float64)",
     "network parameters scaled by at most x3 and actions within ~3 std of the mean, so that log-densities stay "
-    "below ~1e2 in magnitude and probability ratios are placed at least 5% away from the clip boundaries",
+    "below ~1e2 in magnitude and probability ratios are placed at least 5% away from the clip boundaries "
+    "(ppo, extreme class: log-probabilities -100..-300 and +90..+200; at unchanged parameters the reference "
+    "ratio is exactly 1 and the allowance for the library's ratio is 16 float32 eps of the log-probability)",
     "coefficients 0.5 (value term) and 0.01 (entropy bonus) of ppo_loss are taken from the anchored mechanism; "
     "the docstring does not state them",
     "batch size 1: the same per-sample value or a loud rejection are both accepted",
@@ -385,19 +391,15 @@ def run_pg(case):
 # ------------------------------------------------------------------------- PPO
 
 @st.composite
-def _ppo_base_cases(draw, n_fixed=None, mode_fixed=None):
-    case = draw(_base(["softmax", "softmax", "gaussian", "tanh_gaussian"]))
-    n = case["n"] if n_fixed is None else n_fixed
-    case["critic_shape"] = draw(st.sampled_from(["N1", "N1", "N"]))
-    case["critic_hidden"] = [4] if _QUICK() else draw(st.sampled_from([[4], []]))
-    case["critic_seed"] = draw(gen.seeds())
-    case["clip"] = draw(st.one_of(st.sampled_from([0.2, 0.2, 0.1, 0.5, 0.01]), gen.f32(0.01, 0.5)))
-    case["adv"] = draw(st.one_of(_signed_values(n, 1e3), _signed_values(n, 3.0)))
-    case["ret_mode"] = draw(st.sampled_from(["near", "far"]))
-    case["ret"] = draw(_signed_values(n, 1e3 if case["ret_mode"] == "far" else 2.0))
-    mode = draw(st.sampled_from(["mixed", "mixed", "mixed", "all_clipped", "unchanged"])) \
-        if mode_fixed is None else mode_fixed
-    case["mode"] = mode
+def _ppo_batch(draw, n, mode=None):
+    """Advantages, returns, mode and the region of every sample's probability ratio, for batch size n."""
+    out = {}
+    out["adv"] = draw(st.one_of(_signed_values(n, 1e3), _signed_values(n, 3.0)))
+    out["ret_mode"] = draw(st.sampled_from(["near", "far"]))
+    out["ret"] = draw(_signed_values(n, 1e3 if out["ret_mode"] == "far" else 2.0))
+    if mode is None:
+        mode = draw(st.sampled_from(["mixed", "mixed", "mixed", "all_clipped", "unchanged"]))
+    out["mode"] = mode
     # region of the probability ratio, position inside it (u), and distance class from the clip boundary:
     # ratios are placed from 0.3 % beyond / inside a boundary (between 1 +- clip and exp(+-clip)) to far away
     region = st.tuples(st.sampled_from(["above", "below", "in", "above", "below", "same"]),
@@ -407,8 +409,8 @@ def _ppo_base_cases(draw, n_fixed=None, mode_fixed=None):
     if n >= 2 and mode == "mixed":
         # by construction: one sample clipped on its favoured side, and (n >= 3) the other clip side
         # present too, on a sample of the opposite advantage sign; the remaining regions are free
-        pos = [i for i, a in enumerate(case["adv"]) if a > 0.0]
-        neg = [i for i, a in enumerate(case["adv"]) if a < 0.0]
+        pos = [i for i, a in enumerate(out["adv"]) if a > 0.0]
+        neg = [i for i, a in enumerate(out["adv"]) if a < 0.0]
         first = draw(st.sampled_from(["pos", "neg"]))
         if first == "neg":
             pos, neg = neg, pos
@@ -417,9 +419,8 @@ def _ppo_base_cases(draw, n_fixed=None, mode_fixed=None):
             regions[pos[draw(st.integers(0, len(pos) - 1))]][0] = hi
         if neg and (n >= 3 or not pos):
             regions[neg[draw(st.integers(0, len(neg) - 1))]][0] = draw(st.sampled_from([lo, lo, hi]))
-    case["regions"] = regions
-    case["k_scale"] = draw(st.sampled_from([2.5, 0.125, 1e3]))
-    return case
+    out["regions"] = regions
+    return out
 
 
 # Recorded actions of extreme log-probability (class "x", about a fifth of the ppo cases).  A probability ratio is
@@ -442,8 +443,14 @@ _X_KINDS = ["softmax_low", "gauss_high", "gauss_far", "softmax_low", "gauss_high
 
 @st.composite
 def ppo_cases(draw):
-    case = draw(_ppo_base_cases())
+    case = draw(_base(["softmax", "softmax", "gaussian", "tanh_gaussian"]))
+    case["critic_shape"] = draw(st.sampled_from(["N1", "N1", "N"]))
+    case["critic_hidden"] = [4] if _QUICK() else draw(st.sampled_from([[4], []]))
+    case["critic_seed"] = draw(gen.seeds())
+    case["clip"] = draw(st.one_of(st.sampled_from([0.2, 0.2, 0.1, 0.5, 0.01]), gen.f32(0.01, 0.5)))
+    case["k_scale"] = draw(st.sampled_from([2.5, 0.125, 1e3]))
     if draw(st.sampled_from(["none"] * 7 + ["x"] * 2)) == "none":
+        case.update(draw(_ppo_batch(case["n"])))
         return case
     kind = draw(st.sampled_from(_X_KINDS))
     x = {"kind": kind}
@@ -475,10 +482,7 @@ def ppo_cases(draw):
     x["rows"] = rows
     mode = "unchanged" if kind == "gauss_high" else draw(
         st.sampled_from(["unchanged", "unchanged", "mixed", "all_clipped"]))
-    # advantages / returns / regions of the new batch size; the construction of the mixed mode as above
-    fresh = draw(_ppo_base_cases(n_fixed=n, mode_fixed=mode))
-    for k in ("adv", "ret", "ret_mode", "regions", "mode"):
-        case[k] = fresh[k]
+    case.update(draw(_ppo_batch(n, mode)))
     case["x"] = x
     return case
 
@@ -513,6 +517,75 @@ def _ratio_targets(case, adv):
     return out
 
 
+def _x_rows(case):
+    """Row flags of the extreme class for the current batch size (a minimised case may have fewer rows)."""
+    rows = [bool(r) for r in case["x"]["rows"][:case["n"]]]
+    rows += [False] * (case["n"] - len(rows))
+    if not any(rows):
+        rows[0] = True
+    return rows
+
+
+def _x_set_params(case, policy):
+    """Extreme class: place the output parameters of the policy network (see ppo_cases)."""
+    jnp = _jnp()
+    x, d = case["x"], case["act_dim"]
+    if x["kind"] == "softmax_low":
+        low = int(x["low"]) % d
+        layer = policy.net.output_layer
+        b = np.asarray(layer.bias.value, dtype=np.float32).copy()
+        if x.get("spread") and d > 2:
+            # the other actions in between: -gap * (0, 1/(d-1), ..., (d-2)/(d-1)) in rotated order
+            steps = np.float32(x["gap"]) * np.arange(d - 1, dtype=np.float32) / np.float32(d - 1)
+            others = [(low + 1 + j) % d for j in range(d - 1)]
+            b[others] -= steps
+        b[low] -= np.float32(x["gap"])
+        layer.bias.value = jnp.asarray(b)
+    elif x["kind"] == "gauss_high":
+        net = policy.net
+        lvb = (np.float32(x["lv_bias"]) + 0.5 * np.cos(np.arange(d))).astype(np.float32)
+        ms, ls = np.float32(x["mean_scale"]), np.float32(0.25)
+        if net.shared_head:
+            layer = net.output_layers[0]
+            k = np.asarray(layer.kernel.value, dtype=np.float32).copy()
+            k[:, :d] *= ms
+            k[:, d:] *= ls
+            b = np.asarray(layer.bias.value, dtype=np.float32).copy()
+            b[d:] = lvb
+            layer.kernel.value, layer.bias.value = jnp.asarray(k), jnp.asarray(b)
+        else:
+            lm, ll = net.output_layers
+            lm.kernel.value = lm.kernel.value * ms
+            ll.kernel.value = ll.kernel.value * ls
+            ll.bias.value = jnp.asarray(lvb)
+
+
+def _x_actions(case, policy, info, obs):
+    """Extreme class: the recorded actions."""
+    jnp = _jnp()
+    x, d = case["x"], case["act_dim"]
+    rows = _x_rows(case)
+    if x["kind"] == "softmax_low":
+        low = int(x["low"]) % d
+        a = np.asarray(_actions(case, policy, info, obs)).copy()
+        for i, flag in enumerate(rows):
+            if flag:
+                a[i] = low
+            elif a[i] == low:
+                a[i] = (low + 1) % d  # the most likely of the other actions
+        return jnp.asarray(a, dtype=jnp.int32)
+    if x["kind"] == "gauss_far":
+        j = int(x["dim"]) % d
+
+        def far(z):
+            z = z.copy()
+            z[np.asarray(rows), j] = float(x["zfar"])
+            return z
+
+        return _actions(case, policy, info, obs, z_edit=far)
+    return _actions(case, policy, info, obs)
+
+
 def run_ppo(case):
     jnp = _jnp()
     from flax import nnx
@@ -520,12 +593,15 @@ def run_ppo(case):
 
     n = case["n"]
     c = float(np.float32(case["clip"]))
+    x = case.get("x")
     policy, info = _policy(case)
+    if x:
+        _x_set_params(case, policy)
     critic = pn.make_mlp(case["obs_dim"], 1, case["critic_hidden"], case["critic_seed"])
     if case["critic_shape"] == "N":
         critic = _classes()["FlatCritic"](critic)
     obs = jnp.asarray(_obs(case))
-    actions = _actions(case, policy, info, obs)
+    actions = _x_actions(case, policy, info, obs) if x else _actions(case, policy, info, obs)
     adv32 = np.asarray(case["adv"], dtype=np.float32)
     adv = adv32.astype(np.float64)
     v32 = np.asarray(critic(obs))
@@ -539,7 +615,15 @@ def run_ppo(case):
     targets = _ratio_targets(case, adv)
     old32 = np.array([lp if kind == "same" else np.float32(lp - np.float32(np.log(rho)))
                       for lp, (kind, rho) in zip(logp32, targets)], dtype=np.float32)
-    labels = [case["head"], case["mode"], "critic=" + case["critic_shape"], f"n={n}"]
+    labels = [case["head"], case["mode"], "critic=" + case["critic_shape"], f"n={n}",
+              "x=" + (x["kind"] if x else "none")]
+    # float32 exp() of a log-probability beyond these is 0 / subnormal (flushed) or inf; the ratio
+    # exp(logp - old_logp) of the documented objective is not affected
+    labels += [lab for lab, hit in (("logp<-88", bool(np.any(logp32 < -88.0))),
+                                    ("logp>+88", bool(np.any(logp32 > 88.73))),
+                                    ("logp<-104", bool(np.any(logp32 < -104.0)))) if hit]
+    if not np.all(np.isfinite(logp32)):  # nothing to place a ratio against (the log-density itself: C13)
+        return Outcome(labels=labels + ["excluded-logp-nonfinite"], nontrivial=False)
 
     def call(adv_arr, argnums=(0, 1)):
         return nnx.value_and_grad(ppo_loss, argnums=argnums)(
@@ -558,6 +642,14 @@ def run_ppo(case):
     if kappa > KAPPA_MAX:
         return Outcome(labels=labels + ["ill-conditioned"], nontrivial=False)
     ratio = np.exp(logp - old32.astype(np.float64))
+    if x and case["mode"] == "unchanged":
+        # Extreme class at unchanged parameters: the rollout-time log-probabilities ARE the current ones, every
+        # ratio of the documented objective is exp(0) = 1 exactly, whatever the size of the log-probability.  The
+        # library sees two float32 evaluations of the same function on the same input (they may differ by a few
+        # spacings of logp between an eager and a differentiated forward pass): err = 16 eps * (1 + |logp|),
+        # instead of the conditioning bound that applies to a float32-vs-float64 comparison of the log-density.
+        ratio = np.ones(n)
+        err = 2e-6 * (1.0 + np.abs(logp))
     # the ratios sit where the generator put them, on a known side of both clip boundaries: the float32
     # log-density of the library and the float64 reference may differ by err (conditioning)
     for r, e, (kind, rho) in zip(ratio, err, targets):
@@ -574,6 +666,10 @@ def run_ppo(case):
     check(np.shape(loss) == (), "ppo.value.shape", f"{np.shape(loss)}")
     extra = (np.abs(s1) * err).mean()
     total_ok = _within(loss, ref_total, scale, extra)
+    # finite log-probabilities (of any size), advantages and returns: the documented objective is finite
+    check(bool(np.isfinite(float(loss))) or not np.isfinite(ref_total), "ppo.value.finite_objective_evaluated_non_finite",
+          lambda: f"loss={float(loss)} ref(P+0.5V-0.01H)={ref_total} P={P} clip={c} adv={adv.tolist()} "
+                  f"log-probabilities={logp32.tolist()} old={old32.tolist()}")
     # ---- critic gradient: 0.5 * mean (ret - v)^2 -> (1/N) (v_i - ret_i) dv_i
     jv = pn.per_sample_jacobian(critic, lambda cr: cr(obs).reshape(-1), n)
     gc_ref, gc_gross = pn.contract(jv, (v - ret) / n)
